@@ -152,24 +152,33 @@ def run(tier):
                     fl = flagged.setdefault((top[0][0],), {"entry": e, "family": f, "ks": lad, "work": w, "exponent": round(ex, 3), "hot_functions": top,
                                                           "what": "super-linear growth", "also": []})
                     fl["also"].append("%s/%s" % (e, f))
-    # exponential family: UNION chains (work per added UNION must not keep doubling)
+    # exponential families: UNION chains and nested constructs (depth is bounded by the nesting limit, so these inputs are
+    # short; the work per added level must not keep multiplying)
     uk = (6, 10, 14) if tier == "quick" else (6, 10, 14, 18)
-    ures = cm.measure_many([(e, "union_chain", k) for e in ENTRIES for k in uk], timeout=240)
-    uby = {(r["entry"], r["k"]): r for r in ures}
-    for e in ENTRIES:
-        rs = [uby[(e, k)] for k in uk]
-        if any("total" not in r for r in rs):
-            flagged.setdefault((e, "union_chain", "timeout"), {"entry": e, "family": "union_chain", "ks": uk, "what": "timeout or crash"})
-            continue
-        w = [r["total"] for r in rs]
-        nontrivial.add((e, "union_chain", uk))
-        steps = [w[i + 1] - w[i] for i in range(len(w) - 1)]
-        ratio = steps[-1] / max(steps[0], 1)
-        rows.append({"entry": e, "family": "union_chain", "ks": uk, "work": w, "step_ratio": round(ratio, 2)})
-        if ratio > 3.0:
-            top = hot([rs[0], rs[-2], rs[-1]])
-            flagged.setdefault((top[0][0],), {"entry": e, "family": "union_chain", "ks": uk, "work": w, "step_ratio": round(ratio, 2), "hot_functions": top,
-                                               "what": "work per added element keeps growing (exponential)", "also": []})
+    EXPF = ["union_chain", "nested_minus", "nested_not_paren", "nested_case", "nested_func", "nested_subquery"]
+    ures = cm.measure_many([(e, f, k) for f in EXPF for e in ENTRIES for k in uk], timeout=240)
+    uby = {(r["entry"], r["family"], r["k"]): r for r in ures}
+    for f in EXPF:
+        for e in ENTRIES:
+            rs = [uby.get((e, f, k), {}) for k in uk]
+            if any("total" not in r for r in rs):
+                flagged.setdefault((e, f, "timeout"), {"entry": e, "family": f, "ks": uk, "what": "timeout or crash"})
+                continue
+            w = [r["total"] for r in rs]
+            nontrivial.add((e, f, uk))
+            steps = [w[i + 1] - w[i] for i in range(len(w) - 1)]
+            ratio = steps[-1] / max(steps[0], 1)
+            al = [r["info"].get("alloc_bytes", 0) for r in rs]
+            asteps = [al[i + 1] - al[i] for i in range(len(al) - 1)]
+            aratio = asteps[-1] / max(asteps[0], 1) if asteps[0] > 0 else 0
+            rows.append({"entry": e, "family": f, "ks": uk, "work": w, "step_ratio": round(ratio, 2), "alloc_bytes": al, "alloc_step_ratio": round(aratio, 2)})
+            if ratio > 3.0:
+                top = hot([rs[0], rs[-2], rs[-1]])
+                flagged.setdefault((top[0][0],), {"entry": e, "family": f, "ks": uk, "work": w, "step_ratio": round(ratio, 2), "hot_functions": top,
+                                                   "what": "work per added element keeps growing (exponential)", "also": []})
+            elif aratio > 4.0 and al[-1] > (1 << 20):
+                flagged.setdefault(("alloc", e, f), {"entry": e, "family": f, "ks": uk, "alloc_bytes": al, "ratio": round(aratio, 2),
+                                                     "what": "bytes allocated per added level keep multiplying (exponential copying)", "measure": "alloc"})
     n_viol = 0
     known_alloc = [k for k in common.known_findings("C20") if k["status"] == "known" and k["signature"].get("kind") == "alloc"]
     seen_known = set()
@@ -279,9 +288,12 @@ def replay(path):
         if any("total" not in r for r in res):
             print("timeout/crash"); return 1
         w = [r["total"] for r in res]
-        if d["family"] == "union_chain":
+        if d["family"] == "union_chain" or d["family"].startswith("nested_"):
             ratio = (w[-1] - w[-2]) / max(w[1] - w[0], 1)
-            print("work", w, "step ratio", ratio); return 1 if ratio > 3 else 0
+            al = [r["info"].get("alloc_bytes", 0) for r in res]
+            aratio = (al[-1] - al[-2]) / max(al[1] - al[0], 1)
+            print("work", w, "step ratio", ratio, "alloc", al, "alloc step ratio", aratio)
+            return 1 if (ratio > 3 or (d.get("measure") == "alloc" and aratio > 4)) else 0
         ex = exponent(w)
         al = [r["info"].get("alloc_bytes", 0) for r in res]
         print("work", w, "exponent", round(ex, 3), "alloc", al)
